@@ -11,8 +11,8 @@ import props.ppu_common as pc
 
 MANIFEST = {
     "level": "other",
-    "text": "Whole-run determinism is a two-run property; this technique decides it as determinacy of every function in the frame-loop call graph: (1) for every per-cycle and register-level entry point of every component (timer, controller, interrupts, RTC, the five cartridge controllers, Mapper.Read/Write/EndMachineCycle, all of oam, ppu.EndMachineCycle with the renderer inlined and the PPU register handlers, audio.EndMachineCycle and all sound register handlers, and the CPU's ExecuteMachineCycle for every defined opcode with bus reads as declared inputs) the real code is executed symbolically with every callee inlined and the resulting post-state, return value and ghost output trace are checked to be terms over the pre-state symbols and the declared inputs only - the engine introduces a fresh unconstrained symbol for anything else (unknown external, channel receive, map iteration, uninitialised memory), so none reaching the post-state means the post-state is a function of the pre-state; (2) an SSA scan of every function reachable from gameboy.New, runFrame, Run and ButtonAction finds no use of time, math/rand, crypto/rand, os environment/process state, unsafe, goroutines, blocking or multi-way select, channel receive, map iteration or pointer-to-integer conversion. By induction over the frame loop (C26) two runs from equal states with equal inputs stay equal, in one process or in different ones. Power-on: the real gameboy.New is executed symbolically for every Config (ROM file read and cgo outputs abstracted): every scalar reachable from the returned machine is built from constants, the Config and the ROM bytes only, and the machine holds no reference to any package-level object (which an earlier run in the process could have modified).",
-    "note": "Not a proof about the Go runtime or the cgo display/speakers packages (excluded). The single map iteration in the code base (initInstructionArray building the debug metadata table at package init) writes disjoint array slots per key; its order-independence is an assumption, and the table is read only under debugCPU.",
+    "text": "Whole-run determinism is a two-run property; this technique decides it as determinacy of every function in the frame-loop call graph: (1) for every per-cycle and register-level entry point of every component (timer, controller, interrupts, RTC, the five cartridge controllers, Mapper.Read/Write/EndMachineCycle, all of oam, ppu.EndMachineCycle with the renderer inlined and the PPU register handlers, audio.EndMachineCycle and all sound register handlers, and the CPU's ExecuteMachineCycle for every defined opcode with bus reads as declared inputs) the real code is executed symbolically with every callee inlined and the resulting post-state, return value and ghost output trace are checked to be terms over the pre-state symbols and the declared inputs only - the engine introduces a fresh unconstrained symbol for anything else (unknown external, channel receive, map iteration, uninitialised memory), so none reaching the post-state means the post-state is a function of the pre-state; (2) an SSA scan of every function reachable from gameboy.New, runFrame, Run and ButtonAction finds no use of time, math/rand, crypto/rand, os environment/process state, unsafe, goroutines, blocking or multi-way select, channel receive, map iteration or pointer-to-integer conversion. By induction over the frame loop (C26) two runs from equal states with equal inputs stay equal, in one process or in different ones. Power-on: the real gameboy.New is executed symbolically for every Config (ROM file read and cgo outputs abstracted): every scalar reachable from the returned machine is built from constants, the Config and the ROM bytes only, and the machine holds no reference to any package-level object (which an earlier run in the process could have modified). The cartridge controller construction (real newMBC, page builders abstracted) references no package-level object; the one map iteration of the code base is proved order-independent by a scan.",
+    "note": "Not a proof about the Go runtime or the cgo display/speakers packages (excluded). The single map iteration in the code base (initInstructionArray building the debug metadata table at package init) is shown order-independent by a scan: every store goes to the current key's own value or array slot, and the JSON keys parse to pairwise distinct bytes; json.Unmarshal allocating one object per key is the trusted library behaviour.",
     "technique": "per-function determinacy check on the strongest postcondition computed from the real go/ssa (syntactic free-symbol check) + SSA scan for nondeterminism sources",
     "design_ref": "DESIGN.md section 4 C24",
 }
@@ -50,6 +50,93 @@ def reachable(prog, roots):
                         if isinstance(v, dict) and v.get("k") == "func":
                             work.append(v["n"])
     return seen
+
+
+def map_iteration_scan(ctx):
+    """every map iteration of the code base is order-independent: (a) the only function that ranges over a map is
+    cpu.initInstructionArray (package init); (b) in it every store goes either to a field of the value of the current key
+    or to the slot of the output array indexed by ParseUint(key), and it calls nothing but strconv.ParseUint, noFlags and len;
+    (c) the keys of the two JSON maps it is run on parse to pairwise distinct values in 0..255 and are not duplicated in the
+    JSON text - so two iterations never write the same location and any order yields the same table"""
+    import json, re, os
+    p = ctx.prog
+    rangers = []
+    for f in p.funcs.values():
+        if not f.blocks or f.d.get("outofscope") or not f.pkg or "scottyw/tetromino" not in f.pkg:
+            continue
+        if f.short.startswith(("display.", "(*display.", "speakers.", "(*speakers.")):
+            continue
+        for b in f.blocks:
+            for ins in b["instrs"]:
+                if ins["op"] == "Range":
+                    rangers.append(f.short)
+    rangers = sorted(set(rangers))
+    problems = []
+    if rangers != ["cpu.initInstructionArray"]:
+        problems.append("functions that range over a map or string: %s" % rangers)
+    if p.has_func("cpu.initInstructionArray"):
+        f = p.func("cpu.initInstructionArray")
+        defs = {}
+        for b in f.blocks:
+            for ins in b["instrs"]:
+                if "n" in ins:
+                    defs[ins["n"]] = ins
+        def is_range_value(v):
+            d = defs.get(v.get("n")) if v.get("k") == "reg" else None
+            return d is not None and d["op"] == "Extract" and d["idx"] == 2 and defs.get(d["x"].get("n"), {}).get("op") == "Next"
+        def is_range_key(v):
+            d = defs.get(v.get("n")) if v.get("k") == "reg" else None
+            return d is not None and d["op"] == "Extract" and d["idx"] == 1 and defs.get(d["x"].get("n"), {}).get("op") == "Next"
+        def from_parse_of_key(v):
+            d = defs.get(v.get("n")) if v.get("k") == "reg" else None
+            if d is None:
+                return False
+            if d["op"] == "Convert":
+                return from_parse_of_key(d["x"])
+            if d["op"] == "Extract" and d["idx"] == 0:
+                c = defs.get(d["x"].get("n"), {})
+                return c.get("op") == "Call" and c["call"].get("static") == "strconv.ParseUint" and is_range_key(c["call"]["args"][0]) \
+                    and c["call"]["args"][1].get("v") == "0"
+            return False
+        for b in f.blocks:
+            for ins in b["instrs"]:
+                if ins["op"] == "Store":
+                    a = defs.get(ins["addr"].get("n")) if ins["addr"].get("k") == "reg" else None
+                    ok = a is not None and ((a["op"] == "FieldAddr" and is_range_value(a["x"])) or
+                                            (a["op"] == "IndexAddr" and a["x"].get("k") == "param" and from_parse_of_key(a["i"])))
+                    if not ok:
+                        problems.append("store at %s is not to the current value or to the slot of the current key" % ins.get("pos"))
+                elif ins["op"] == "Call":
+                    c = ins["call"]
+                    nm = short(c.get("static") or "") or c["fn"].get("n")
+                    if nm not in ("strconv.ParseUint", "cpu.noFlags", "len"):
+                        problems.append("call of %s inside the iteration" % nm)
+                elif ins["op"] in ("MapUpdate", "Send", "Go", "Defer"):
+                    problems.append("%s inside the iteration" % ins["op"])
+        # the callers: only init, on the two maps decoded from metadataJSON
+        src = open(os.path.join(ctx.repo, "gameboy/cpu/instruction_metadata.go")).read()
+        m = re.search(r"var metadataJSON = `(.*?)`", src, re.S)
+        if not m:
+            problems.append("metadataJSON literal not found")
+        else:
+            dup = []
+            def pairs(ps):
+                ks = [k for k, _ in ps]
+                for k in set(ks):
+                    if ks.count(k) > 1:
+                        dup.append(k)
+                return dict(ps)
+            try:
+                doc = json.loads(m.group(1), object_pairs_hook=pairs)
+                for part in ("unprefixed", "cbprefixed"):
+                    vals = [int(k, 0) for k in doc.get(part, {})]
+                    if len(set(vals)) != len(vals) or any(v < 0 or v > 255 for v in vals):
+                        problems.append("keys of %s do not parse to distinct bytes" % part)
+                if dup:
+                    problems.append("duplicate JSON keys: %s" % sorted(set(dup))[:5])
+            except ValueError as ex:
+                problems.append("metadataJSON does not parse: %s" % ex)
+    return not problems, "map iterations: %s; problems: %s" % (rangers, problems)
 
 
 def nondet_scan(ctx):
@@ -195,6 +282,8 @@ def tasks(ctx):
     p = ctx.prog
     import props.wiring as wr
     ts = [scan_lemma("scan:no-nondeterminism-source-in-the-frame-loop-call-graph", nondet_scan, ["call graph of New/runFrame/Run/ButtonAction (SSA scan)"]),
+          scan_lemma("scan:map-iteration-is-order-independent", map_iteration_scan, ["cpu.initInstructionArray (SSA scan + JSON key check)"]),
+          LemmaTask("lemma:controller", lambda c, e, ce: wr.controller_lemma(c, e, ce, two=False), ["memory.newMBC"]),
           LemmaTask("determinate:power-on", wr.power_on_determinacy, ["gameboy.New", "memory.New", "cpu.New", "ppu.New", "audio.New", "(*cpu.CPU).Initialize"])]
     ovA = {"Audio.ch2.sweep": nil_value}
     fns = []
@@ -236,4 +325,4 @@ def extra_cov(ctx, outs):
 def run(tier, seed):
     return run_property("C24", tasks, "other", tier, seed, BASE_ASSUME + [
         "determinism of the Go runtime, the compiler and the cgo display/speakers packages is outside the check",
-        "order-independence of the one map iteration (debug metadata table built at package init) is assumed"], TRUSTED, extra_cov=extra_cov)
+        "encoding/json.Unmarshal is deterministic and allocates a distinct object per map key (package init of cpu)"], TRUSTED, extra_cov=extra_cov)
